@@ -82,7 +82,7 @@ func renderInChild(repo, src string) (ok bool, detail string) {
 	cmd.Env = append(os.Environ(), childEnv+"="+src, "WRH_C04_REPO="+repo)
 	outb, err := cmd.CombinedOutput()
 	s := string(outb)
-	if err == nil && strings.HasPrefix(s, "OK") {
+	if t := strings.TrimSpace(s); err == nil && (t == "OK" || strings.HasSuffix(t, "\nOK")) {
 		return true, ""
 	}
 	if i := strings.Index(s, "fatal error:"); i >= 0 {
@@ -684,9 +684,9 @@ func Run(tier string, seed uint64, modelPath, repo string, out *res.Result) erro
 	if len(u.rejected) > 0 {
 		out.Notes = append(out.Notes, "sample values rejected by the validator (not used): "+strings.Join(u.rejected, " | "))
 	}
-	nTrees, seqLen := 200, 120
+	nTrees, seqLen := 500, 120
 	if tier == "thorough" {
-		nTrees, seqLen = 10000, 200
+		nTrees, seqLen = 15000, 200
 	}
 	out.Rule = fmt.Sprintf("random style trees (html>body>div/span.., element depth<=5, ::before/::after, anonymous styles (also nested), page context + margin box); "+
 		"every style declares a random subset of ALL %d properties as inherit / initial / explicit (explicit values: validated samples for every property, generated numbers in all 11 length units, %%, keywords for the modelled computers); "+
@@ -761,6 +761,8 @@ func Run(tier string, seed uint64, modelPath, repo string, out *res.Result) erro
 	if !exUnitsOK {
 		out.Notes = append(out.Notes, "ex/ch units on font-size/tab-size/hyphenate-limit-zone overflow the stack: trees with a font configuration are generated without them")
 	}
+
+	directedStyleFor(out)
 
 	fonts, err := render.NewFonts(repo)
 	if err != nil {
@@ -987,4 +989,59 @@ func (u *universe) runDoc(m *mp.Model, r *rng.R, d *doc, fonts text.FontConfigur
 	}
 	out.Evaluations += k
 	return nil
+}
+
+// directedStyleFor: the public accessor StyleFor.Get overrides padding (display:table with collapsed
+// borders) and margins (internal table boxes) by WRITING into the cached style; a child that
+// inherits the property then sees the override or the computed value depending on which of the two
+// styles was read first.  The computed value must not depend on the access order.
+func directedStyleFor(out *res.Result) {
+	cases := []struct{ name, src, prop string }{
+		{"padding-top", `<div id="a" style="display:table;border-collapse:collapse;padding-top:5px"><div id="b" style="padding-top:inherit">x</div></div>`, "padding-top"},
+		{"margin-left", `<div style="display:table"><div id="a" style="display:table-row;margin-left:7px"><div id="b" style="margin-left:inherit">x</div></div></div>`, "margin-left"},
+	}
+	for _, c := range cases {
+		read := func(parentFirst bool) (child, rawParent string) {
+			h, err := tree.NewHTML(utils.InputString(c.src), "", nil, "")
+			if err != nil {
+				return "error", ""
+			}
+			sf := tree.GetAllComputedStyles(h, nil, false, nil, nil, nil, nil, false, nil)
+			var a, b *utils.HTMLNode
+			it := h.Root.Iter()
+			for it.HasNext() {
+				e := it.Next()
+				switch e.Get("id") {
+				case "a":
+					a = e
+				case "b":
+					b = e
+				}
+			}
+			key := pr.PropsFromNames[c.prop].Key()
+			rawParent = sprint(tree.VerifC04RawStyle(sf, a, "").Copy().Get(key))
+			if parentFirst {
+				sf.Get(a, "")
+			}
+			return sprint(sf.Get(b, "").Get(key)), rawParent
+		}
+		var v1, v2, par string
+		oc := render.Guard(30*time.Second, func() {
+			v1, par = read(true)
+			v2, _ = read(false)
+		})
+		out.Evaluations++
+		out.Nontrivial++
+		out.Hit("directed:stylefor-get-order")
+		if !oc.OK() {
+			out.Add(res.Finding{Kind: "crash", Op: "crash:directed", Input: c.src, Reason: oc.Panic, Key: oc.Site})
+			continue
+		}
+		if v1 != v2 || v1 != par {
+			out.Add(res.Finding{Kind: "judge", Op: "judge:stylefor-get-order", Input: c.src,
+				Impl:   fmt.Sprintf("child %s = %s when StyleFor.Get(parent) is called first, %s otherwise", c.prop, v1, v2),
+				Model:  "the parent's computed value " + par + " in both orders",
+				Reason: "`inherit` must give the parent's computed value whatever the access order; StyleFor.Get writes the table padding/margin override into the parent's cached style", Key: c.name})
+		}
+	}
 }
